@@ -93,6 +93,25 @@ Theorem C28_storage_rollback_on_error :
 Proof. exact @client_rollback. Qed.
 Print Assumptions C28_storage_rollback_on_error.
 
+(* FINDING (reported): the hypothesis `memory = transacted` cannot be dropped for the real client:
+   MemoryClient::deploy does not commit, so a deployment that is followed by a reverted / panicked
+   script disappears with it *)
+Theorem C28_rollback_after_deploy_refuted :
+  exists (s : @mstorage (list N)) (dep w : list N -> list N) (rs : list receipt),
+    ms_memory s = ms_transacted s /\ should_revert rs = true /\
+    ms_memory (client_transact (client_deploy s dep) w true rs) <> ms_memory (client_deploy s dep).
+Proof. exact rollback_after_deploy_refuted. Qed.
+Print Assumptions C28_rollback_after_deploy_refuted.
+
+(* once a script has succeeded (commit), later failed scripts restore the state before them *)
+Theorem C28_rollback_after_commit :
+  forall (T : Type) (s : @mstorage T) (w1 w2 : T -> T) (rs1 rs2 : list receipt),
+    should_revert rs1 = false -> should_revert rs2 = true ->
+    let s1 := client_transact s w1 true rs1 in
+    ms_memory (client_transact s1 w2 true rs2) = ms_memory s1.
+Proof. exact @rollback_after_commit. Qed.
+Print Assumptions C28_rollback_after_commit.
+
 (* the hypothesis `run ... = Done` is satisfiable: a success with a nested call, a revert inside
    two nested calls, a panic *)
 Theorem C28_nonvacuous :
